@@ -247,9 +247,31 @@ def find_gates(fn, aliases=None, blocals=None):
     return out
 
 
+def _exits_all_report(n):
+    """every exit inside the if-chain `n` sits in a branch that reports an error before leaving:
+    `if (A) t = ..; else if (B) t = ..; else { handleError(..); return false; }`"""
+    def branch(b):
+        if b is None:
+            return True
+        stmts = b.get("s", []) if b.get("k") == "block" else [b]
+        ok = True
+        direct_exit = any(isinstance(x, dict) and x.get("k") in ("return", "continue", "break", "throw", "goto") for x in stmts)
+        if direct_exit and not any(has_error_report(x) for x in stmts if isinstance(x, dict)):
+            return False
+        for x in stmts:
+            if isinstance(x, dict) and x.get("k") == "if":
+                ok = ok and branch(x["then"]) and branch(x.get("else"))
+            elif isinstance(x, dict) and x.get("k") not in ("return", "continue", "break", "throw", "goto") and has_exit(x):
+                return False        # an exit inside a loop / switch / nested block: not read
+        return ok
+    return branch(n["then"]) and branch(n.get("else"))
+
+
 def _exit_allowed(ifnode, aliases):
     """An early exit is harmless if its branch reports an error or is taken because type checking failed."""
     if has_error_report(ifnode["then"]) and (ifnode.get("else") is None or not has_exit(ifnode["else"])):
+        return True
+    if "then" in ifnode and ifnode.get("k") == "if" and _exits_all_report(ifnode):
         return True
     c = ifnode["c"]
     while c.get("k") in ("paren",):
